@@ -19,6 +19,49 @@ Local Open Scope R_scope.
 Lemma filter_len_le {X} (P : X -> bool) (l : list X) : (length (filter P l) <= length l)%nat.
 Proof. induction l as [|a l IH]; cbn; [lia|]. destruct (P a); cbn; lia. Qed.
 
+(* ---------------------------------------------------------------- over any arithmetic: the rows of the scatter loop *)
+Section SpGen.
+Context {A : Arith}.
+
+(* the stored entries of row i, as (column, storage index), in storage (= accumulation) order *)
+Definition row_entries (s : sparse A) (i : nat) : list (nat * nat) :=
+  filter (fun jk => (nth (snd jk) (sp_row_index s) 0%nat =? i)%nat) (visits (sp_col_start s) (sp_cols s)).
+Definition re_val (s : sparse A) (i t : nat) : A := nth (snd (nth t (row_entries s i) (0%nat, 0%nat))) (sp_val s) zero.
+Definition re_col (s : sparse A) (i t : nat) : nat := fst (nth t (row_entries s i) (0%nat, 0%nat)).
+
+Lemma fold_add_sum_acc_gen (l : list A) (a : A) :
+  fold_left add l a = sum_acc a (length l) (fun k => nth k l zero).
+Proof.
+  revert a; induction l as [|x l IH]; intros a; [reflexivity|].
+  cbn [fold_left length]. rewrite sum_acc_shift. cbn [nth]. apply IH.
+Qed.
+
+Lemma sp_mul_Ok_rows (s : sparse A) (x y : list A) : wfS s -> sp_mul s x = Ok y ->
+  length x = sp_cols s /\ length y = sp_rows s /\
+  forall i, (i < sp_rows s)%nat ->
+    nth i y zero = sum_n (length (row_entries s i)) (fun t => mul (re_val s i t) (nth (re_col s i t) x zero)).
+Proof.
+  intros Hwf E.
+  assert (Lx : length x = sp_cols s).
+  { unfold sp_mul in E. match type of E with (if negb ?c then _ else _) = _ => destruct c eqn:G end;
+      cbn [negb] in E; [|discriminate]. apply Nat.eqb_eq in G. symmetry. exact G. }
+  rewrite (sp_mul_fold s x Hwf Lx) in E. injection E as <-.
+  split; [exact Lx|]. split; [now rewrite scat_length, repeat_length|].
+  intros i Hi. rewrite scat_nth.
+  2:{ intros w Hw. apply in_map_iff in Hw as (jk & <- & Hin). cbn [fst].
+      rewrite repeat_length. now apply wf_row_lt. }
+  rewrite nth_repeat. rewrite filter_map_comm, map_map. cbn [fst snd].
+  fold (row_entries s i).
+  rewrite fold_add_sum_acc_gen, sum_acc_zero, map_length.
+  apply sum_n_ext. intros t Ht.
+  rewrite (nth_indep _ zero (mul (nth (snd (0%nat, 0%nat)) (sp_val s) zero) (nth (fst (0%nat, 0%nat)) x zero)))
+    by (rewrite map_length; exact Ht).
+  rewrite (map_nth (fun jk : nat * nat => mul (nth (snd jk) (sp_val s) zero) (nth (fst jk) x zero))).
+  reflexivity.
+Qed.
+
+End SpGen.
+
 Section RoundSparse.
 Variable u : R.
 Hypothesis u_range : 0 <= u < 1.
@@ -30,43 +73,9 @@ Hypothesis fadd_0_mul : forall a b, fadd 0 (fmul a b) = fmul a b.
 Notation AR := (ARm fadd fsub fmul fdiv).
 Notation gam := (gam u).
 
-(* the stored entries of row i, as (column, storage index), in storage (= accumulation) order *)
-Definition row_entries (s : sparse AR) (i : nat) : list (nat * nat) :=
-  filter (fun jk => (nth (snd jk) (sp_row_index s) 0%nat =? i)%nat) (visits (sp_col_start s) (sp_cols s)).
-Definition re_val (s : sparse AR) (i t : nat) : R := nth (snd (nth t (row_entries s i) (0%nat, 0%nat))) (sp_val s) 0.
-Definition re_col (s : sparse AR) (i t : nat) : nat := fst (nth t (row_entries s i) (0%nat, 0%nat)).
-
 Lemma fold_add_sum_acc (l : list R) (a : R) :
   fold_left fadd l a = sum_acc (A := AR) a (length l) (fun k => nth k l 0).
-Proof.
-  revert a; induction l as [|x l IH]; intros a; [reflexivity|].
-  cbn [fold_left length]. rewrite (sum_acc_shift (A := AR)). cbn [nth]. apply IH.
-Qed.
-
-Lemma sp_mul_Ok_rows (s : sparse AR) (x y : list R) : wfS s -> sp_mul s x = Ok y ->
-  length x = sp_cols s /\ length y = sp_rows s /\
-  forall i, (i < sp_rows s)%nat ->
-    nth i y 0 = sum_n (A := AR) (length (row_entries s i))
-                  (fun t => fmul (re_val s i t) (nth (re_col s i t) x 0)).
-Proof.
-  intros Hwf E.
-  assert (Lx : length x = sp_cols s).
-  { unfold sp_mul in E. match type of E with (if negb ?c then _ else _) = _ => destruct c eqn:G end;
-      cbn [negb] in E; [|discriminate]. apply Nat.eqb_eq in G. symmetry. exact G. }
-  rewrite (sp_mul_fold (A := AR) s x Hwf Lx) in E. injection E as <-.
-  split; [exact Lx|]. split; [etransitivity; [apply (scat_length (A := AR))|apply repeat_length]|].
-  intros i Hi. rewrite (scat_nth (A := AR)).
-  2:{ intros w Hw. apply in_map_iff in Hw as (jk & <- & Hin). cbn [fst].
-      rewrite repeat_length. now apply wf_row_lt. }
-  rewrite nth_repeat. rewrite filter_map_comm, map_map. cbn [fst snd].
-  fold (row_entries s i). change (@zero AR) with 0.
-  change (@add AR) with fadd. rewrite fold_add_sum_acc, (sum_acc_zero (A := AR)), map_length.
-  apply (sum_n_ext (A := AR)). intros t Ht. change (@mul AR) with fmul.
-  rewrite (nth_indep _ 0 (fmul (nth (snd (0%nat, 0%nat)) (sp_val s) 0) (nth (fst (0%nat, 0%nat)) x 0)))
-    by (rewrite map_length; exact Ht).
-  rewrite (map_nth (fun jk : nat * nat => fmul (nth (snd jk) (sp_val s) 0) (nth (fst jk) x 0))).
-  reflexivity.
-Qed.
+Proof. exact (fold_add_sum_acc_gen (A := AR) l a). Qed.
 
 Theorem sp_mul_backward_error_lemma (s : sparse AR) (x y : list R) :
   wfS s -> sp_mul s x = Ok y ->
@@ -77,13 +86,15 @@ Theorem sp_mul_backward_error_lemma (s : sparse AR) (x y : list R) :
       nth i y 0 = Rsum (length (row_entries s i))
                     (fun t => re_val s i t * (1 + th t) * nth (re_col s i t) x 0).
 Proof using u_range fadd_ok fmul_ok fadd_0_mul.
-  intros Hwf E. destruct (sp_mul_Ok_rows s x y Hwf E) as (Lx & Ly & Hrow). split; [exact Ly|].
-  intros i Hi Hn. rewrite (Hrow i Hi).
+  intros Hwf E. destruct (sp_mul_Ok_rows (A := AR) s x y Hwf E) as (Lx & Ly & Hrow). split; [exact Ly|].
+  intros i Hi Hn.
+  assert (Ei : nth i y 0 = sum_n (A := AR) (length (row_entries s i))
+                             (fun t => fmul (re_val s i t) (nth (re_col s i t) x 0))) by exact (Hrow i Hi).
   destruct (sum_prod_round u u_range fadd fsub fmul fdiv fadd_ok fmul_ok fadd_0_mul (length (row_entries s i))
               (fun t => re_val s i t) (fun t => nth (re_col s i t) x 0)) as (W & HW & EW).
   exists (fun t => W t - 1). split.
   - intros t Ht. apply (bnd_gam u u_range); [now apply HW|exact Hn].
-  - rewrite EW. apply Rsum_ext. intros t Ht. ring.
+  - etransitivity; [exact Ei|]. etransitivity; [exact EW|]. apply Rsum_ext. intros t Ht. ring.
 Qed.
 
 Theorem sp_mul_forward_error_lemma (s : sparse AR) (x y : list R) :
@@ -110,3 +121,33 @@ Proof.
 Qed.
 
 End RoundSparse.
+
+(* ---------------------------------------------------------------- the primitive-float instance (IEEE binary64) *)
+From Coq Require Import Floats.
+From OV Require Import Inst.FloatInst Proofs.ComplexRound Proofs.RoundDotFloat.
+
+Theorem sp_mul_backward_error_float_lemma (s : sparse AF) (x y : list pfloat) :
+  wfS s -> sp_mul (A := AF) s x = Ok y ->
+  length y = sp_rows s /\
+  forall i, (i < sp_rows s)%nat -> ffinite (nth i y 0%float) ->
+    (forall t, (t < length (row_entries s i))%nat ->
+       no_underflow (FR (re_val s i t) * FR (nth (re_col s i t) x 0%float))) ->
+    INR (length (row_entries s i)) * u64 < 1 ->
+    exists th : nat -> R,
+      (forall t, (t < length (row_entries s i))%nat -> Rabs (th t) <= g64 (length (row_entries s i))) /\
+      FR (nth i y 0%float) = Rsum (length (row_entries s i))
+                               (fun t => FR (re_val s i t) * (1 + th t) * FR (nth (re_col s i t) x 0%float)).
+Proof.
+  intros Hwf E. destruct (sp_mul_Ok_rows (A := AF) s x y Hwf E) as (Lx & Ly & Hrow). split; [exact Ly|].
+  intros i Hi Fi Hu Hn.
+  assert (Ei : nth i y 0%float = sum_n (A := AF) (length (row_entries s i))
+                 (fun t => (re_val s i t * nth (re_col s i t) x 0%float)%float)) by exact (Hrow i Hi).
+  rewrite Ei in Fi |- *.
+  pose proof (sum_n_float_transfer (length (row_entries s i)) (fun t => re_val s i t)
+                (fun t => nth (re_col s i t) x 0%float) Fi Hu) as ET.
+  destruct (sum_prod_round u64 u64_range Fadd Fsub Fmul Fdiv Fadd_ok Fmul_ok Fadd_0_mul (length (row_entries s i))
+              (fun t => FR (re_val s i t)) (fun t => FR (nth (re_col s i t) x 0%float))) as (W & HW & EW).
+  exists (fun t => W t - 1). split.
+  - intros t Ht. apply (bnd_gam u64 u64_range); [now apply HW|exact Hn].
+  - etransitivity; [exact ET|]. etransitivity; [exact EW|]. apply Rsum_ext. intros t Ht. ring.
+Qed.
